@@ -100,6 +100,9 @@ def uninstall():
 def do_read(obj, k):
     """one access: obj[k], or ["iter", n] = the first n items of a fresh iteration, or ["slice", a, b] = obj[a:b]"""
     if isinstance(k, list):
+        if k[0] == "open":
+            obj.open()      # documented as an empty operation on an object that is already open
+            return "opened"
         if k[0] == "iter":
             import itertools
             return list(itertools.islice(iter(obj), k[1]))
